@@ -796,21 +796,6 @@ Proof.
 Qed.
 
 (* ---------- pacing across a whole conversation ---------- *)
-(* Time certainly spent asleep from here up to the next write (or the end of the trace). *)
-Fixpoint quiet (evs : list sev) : N :=
-  match evs with
-  | [] => 0
-  | EvWrite _ :: _ => 0
-  | EvSleep ms :: t => ms + quiet t
-  | EvRead _ :: t => quiet t
-  end.
-(* For every write of the trace: the bytes it delivered and the time slept before the next write. *)
-Fixpoint write_gaps (evs : list sev) : list (list N * N) :=
-  match evs with
-  | [] => []
-  | EvWrite bs :: t => (bs, quiet t) :: write_gaps t
-  | _ :: t => write_gaps t
-  end.
 Fixpoint no_write (evs : list sev) : Prop :=
   match evs with
   | [] => True
